@@ -24,6 +24,7 @@ type Store struct {
 
 	// Atomic CAS'ed int64/uint64's must be at the top for 32-bit compatibility.
 	size       int64                   // Atomic protected; file size or next write position.
+	rootsEnd   int64                   // Atomic protected; end of the current root record, 0 if none.
 	nodeAllocs uint64                  // Atomic protected; total node allocation stats.
 	coll       *map[string]*Collection // Copy-on-write map[string]*Collection.
 	file       StoreFile               // When nil, we're memory-only or no persistence.
@@ -280,6 +281,9 @@ func (s *Store) FlushRevert() error {
 			cold.closeCollection()
 		}
 	}
+	// Scan back from the end of the current root record.  Bytes after it were
+	// left by a failed Flush() or a Collection.Write() and belong to no flush.
+	atomic.StoreInt64(&s.size, atomic.LoadInt64(&s.rootsEnd))
 	if atomic.LoadInt64(&s.size) > rootsLen {
 		atomic.AddInt64(&s.size, -1)
 	}
@@ -304,6 +308,7 @@ func (s *Store) Snapshot() (snapshot *Store) {
 		coll:      &coll,
 		file:      s.file,
 		size:      atomic.LoadInt64(&s.size),
+		rootsEnd:  atomic.LoadInt64(&s.rootsEnd),
 		readOnly:  true,
 		callbacks: s.callbacks,
 	}
@@ -436,6 +441,7 @@ func (s *Store) writeRoots(rnls map[string]*rootNodeLoc) error {
 		return err
 	}
 	atomic.StoreInt64(&s.size, offset+int64(length))
+	atomic.StoreInt64(&s.rootsEnd, offset+int64(length))
 	return nil
 }
 
@@ -458,6 +464,7 @@ func (s *Store) readRootsScan(defaultToEmpty bool) (err error) {
 			return err
 		}
 		if defaultToEmpty && atomic.LoadInt64(&s.size) <= 0 {
+			atomic.StoreInt64(&s.rootsEnd, 0)
 			return nil // Scanned back to the start; no earlier roots, so empty.
 		}
 		offset, length, err := s.readRootsEnd(rootsEnd)
@@ -560,6 +567,7 @@ func (s *Store) validateAndSetCollections(data []byte, length uint32) error {
 		}
 	}
 	s.setColl(&m)
+	atomic.StoreInt64(&s.rootsEnd, atomic.LoadInt64(&s.size))
 	return nil
 }
 
